@@ -4,6 +4,8 @@ import (
 	"fmt"
 	"os"
 	"path/filepath"
+	"runtime/debug"
+	"strings"
 	"sync"
 	"sync/atomic"
 
@@ -54,6 +56,7 @@ func confinementLayout(g *gen.G) *layout {
 }
 
 var libMu sync.Mutex
+var osRootPanics int64
 
 // libraryRun performs nested SetRoot calls and a MergeFileLayers through the
 // library, in-process (the working directory is the layout's /w).
@@ -86,6 +89,9 @@ func libraryRun(r *Run, l *layout, roots []string) ([]byte, bool) {
 		// as a failed call (DESIGN.md section 7, observation)
 		defer func() {
 			if x := recover(); x != nil {
+				if !strings.Contains(string(debug.Stack()), "os.doInRoot") {
+					panic(x) // not the toolchain's defect: let it surface
+				}
 				panicked = true
 				err = fmt.Errorf("panic: %v", x)
 			}
@@ -99,7 +105,13 @@ func libraryRun(r *Run, l *layout, roots []string) ([]byte, bool) {
 			break
 		}
 	}
-	_ = panicked
+	if panicked {
+		// the toolchain failed, not bkl: the run says nothing about the property
+		// (a directory link that resolves to the root itself, d -> "..", is inside
+		// the root for the specification and for a repaired os.Root)
+		atomic.AddInt64(&osRootPanics, 1)
+		return nil, false
+	}
 	if ok {
 		for _, in := range l.Inputs {
 			rp, _, err := bkl.FileMatch(in)
@@ -210,6 +222,7 @@ func C18(r *Run) {
 		}
 	}
 	r.Cov["non_interference_runs"] = 2 * n
+	r.Cov["library_runs_skipped_os_root_panic_go1_24_0"] = int(atomic.LoadInt64(&osRootPanics))
 	finishEvalFamily(r, "C18", st, sessions,
 		[]string{"Confined (reads inside the root)", "EscapesFail", "NonInterference (outside files removed)", "RootSpellings"},
 		"model: 33 layouts (escaping $parent values, inputs outside, relative / absolute / chained / directory links, root spellings), each run under strace and twice more with every outside file rewritten / deleted; driver: random layouts around a root with decoys (11 $parent values, 9 link targets, 6 directory links, 10 inputs, 4 roots) under strace plus rewrite/delete reruns, and library runs with nested SetRoot calls (also through directory links)")
